@@ -2,49 +2,38 @@ package rules
 
 import (
 	"go/ast"
+	"go/constant"
 	"go/token"
+	"go/types"
+	"sort"
 	"strings"
 
+	"jsverif/internal/absint"
 	"jsverif/internal/core"
 )
 
 // eofPairsRule: the end-of-input handlers close every open lexeme with its own partner.
 func eofPairsRule(R string) RuleFunc {
 	return func(c *core.Ctx) {
-		c.Rule(R, "in the end-of-input handler of each scanner (the switch on the type of the top of the lexeme stack in Next / processTail) every case `lexeme.XBegin` hands processingFoundLexeme a closing type that is paired with XBegin in the package's own pair tables (isScalarPair / isNonScalarPair, extracted from the source). A wrong closer makes the closing step fail with the plain error `incorrect ending of the lexical event` (no code, no position) or with the internal failure code")
+		c.Rule(R, "in the end-of-input table of each scanner (decoded from Next with its helpers evaluated in place, evaluated once per lexeme type on top of the lexeme stack) every opening type XBegin that the end of the input closes is closed with a type that is paired with XBegin in the package's own pair tables (isScalarPair / isNonScalarPair, extracted from the source). A wrong closer makes the closing step fail with the plain error `incorrect ending of the lexical event` (no code, no position) or with the internal failure code")
 		c.Floor(R, 6)
-		for _, spec := range []struct{ pkg, fn string }{
-			{"rules/enum", "(*rules/enum.scanner).processTail"},
-			{"notations/jschema/scanner", "(*notations/jschema/scanner.Scanner).Next"},
-			{"formats/json", "(*formats/json.scanner).Next"},
+		for _, spec := range []struct{ pkg, recv, fn string }{
+			{"rules/enum", "scanner", "(*rules/enum.scanner).processTail"},
+			{"notations/jschema/scanner", "Scanner", "(*notations/jschema/scanner.Scanner).Next"},
+			{"formats/json", "scanner", "(*formats/json.scanner).Next"},
 		} {
 			pk := c.P.Pkg(spec.pkg)
-			d := c.P.FindDecl(spec.fn)
-			if pk == nil || d == nil {
+			if pk == nil {
 				c.Unresolved(R, spec.fn)
 				continue
 			}
-			// pair tables
-			pairs := map[string]bool{}
-			for _, fd := range c.P.FuncDecls() {
-				if fd.Pkg != pk || !(fd.Decl.Name.Name == "isScalarPair" || fd.Decl.Name.Name == "isNonScalarPair") {
-					continue
-				}
-				ast.Inspect(fd.Decl.Body, func(n ast.Node) bool {
-					be, ok := n.(*ast.BinaryExpr)
-					if !ok || be.Op != token.LAND {
-						return true
-					}
-					l, ok1 := ast.Unparen(be.X).(*ast.BinaryExpr)
-					r, ok2 := ast.Unparen(be.Y).(*ast.BinaryExpr)
-					if ok1 && ok2 && l.Op == token.EQL && r.Op == token.EQL && core.ExprStr(l.X) == "pairType" && core.ExprStr(r.X) == "lexType" {
-						pairs[strings.TrimPrefix(core.ExprStr(l.Y), "lexeme.")+">"+strings.TrimPrefix(core.ExprStr(r.Y), "lexeme.")] = true
-					}
-					return true
-				})
+			tab, lt, ok := eofOpeners(c, R, spec.pkg, spec.recv)
+			if !ok {
+				c.Bad(R, spec.fn+":switch", "-", "end-of-input table of "+spec.fn, "undecided: the end-of-input branch could not be decoded")
+				continue
 			}
-			if len(pairs) == 0 {
-				c.Bad(R, spec.fn+":pairs", c.P.Pos(d.Decl.Pos()), "pair tables of "+spec.pkg, "undecided: no isScalarPair/isNonScalarPair table found")
+			if len(lt.scalar)+len(lt.nonScalar) == 0 {
+				c.Bad(R, spec.fn+":pairs", "-", "pair tables of "+spec.pkg, "undecided: no isScalarPair/isNonScalarPair table found")
 				continue
 			}
 			// lexeme types this scanner ever emits
@@ -58,42 +47,81 @@ func eofPairsRule(R string) RuleFunc {
 					emitted[strings.TrimPrefix(core.ExprStr(cs.Call.Args[0]), "lexeme.")] = true
 				}
 			}
-			n := 0
-			ast.Inspect(d.Decl.Body, func(nd ast.Node) bool {
-				sw, ok := nd.(*ast.SwitchStmt)
-				if !ok || sw.Tag == nil || !strings.Contains(core.ExprStr(sw.Tag), "stack.Peek().Type()") {
-					return true
+			var openers []string
+			for o, act := range tab {
+				if strings.HasPrefix(act, "emit:") {
+					openers = append(openers, o)
 				}
-				for _, cl := range sw.Body.List {
-					cc := cl.(*ast.CaseClause)
-					for _, e := range cc.List {
-						opener := strings.TrimPrefix(core.ExprStr(e), "lexeme.")
-						// the closer handed to processingFoundLexeme in this case
-						closer := ""
-						ast.Inspect(cc, func(m ast.Node) bool {
-							if call, ok := m.(*ast.CallExpr); ok && strings.HasSuffix(core.ExprStr(call.Fun), ".processingFoundLexeme") && len(call.Args) == 1 {
-								closer = strings.TrimPrefix(core.ExprStr(call.Args[0]), "lexeme.")
-							}
-							return true
-						})
-						if closer == "" {
-							continue
-						}
-						n++
-						if !emitted[opener] {
-							c.Note(R, spec.fn+":"+opener, c.P.Pos(cc.Pos()), "end of input with "+opener+" open", "dead case: this scanner never emits "+opener)
-							continue
-						}
-						c.Check(pairs[opener+">"+closer], R, spec.fn+":"+opener, c.P.Pos(cc.Pos()), "end of input with "+opener+" open: closed with "+closer, "the pair <"+opener+", "+closer+"> is not in the scanner's pair tables: closing fails with a bare error instead of a diagnostic")
-					}
+			}
+			sort.Strings(openers)
+			for _, opener := range openers {
+				closer := strings.TrimPrefix(tab[opener], "emit:")
+				if !emitted[opener] {
+					c.Note(R, spec.fn+":"+opener, "-", "end of input with "+opener+" open", "dead case: this scanner never emits "+opener)
+					continue
 				}
-				return false
-			})
-			if n == 0 {
-				c.Bad(R, spec.fn+":switch", c.P.Pos(d.Decl.Pos()), "end-of-input switch of "+spec.fn, "undecided: no switch on stack.Peek().Type() with processingFoundLexeme calls")
+				pair := [2]string{opener, closer}
+				c.Check(lt.scalar[pair] || lt.nonScalar[pair], R, spec.fn+":"+opener, "-", "end of input with "+opener+" open: closed with "+closer, "the pair <"+opener+", "+closer+"> is not in the scanner's pair tables: closing fails with a bare error instead of a diagnostic")
+			}
+			if len(openers) == 0 {
+				c.Bad(R, spec.fn+":switch", "-", "end-of-input table of "+spec.fn, "undecided: the end of the input closes no lexeme")
 			}
 		}
 	}
+}
+
+// eofOpeners evaluates the decoded end-of-input table of a scanner once per lexeme type on top of
+// the lexeme stack (all other scanner fields at their zero values): opener -> "accept" |
+// "reject" | "emit:<closing type>".
+func eofOpeners(c *core.Ctx, R, pkgRel, recv string) (map[string]string, *lexTables, bool) {
+	m := buildScanModel(c, pkgRel)
+	lt := extractLexTables(c, R, pkgRel)
+	if lt == nil {
+		return nil, nil, false
+	}
+	eof, ok := extractEOF(c, R, m, pkgRel, recv)
+	if !ok {
+		return nil, nil, false
+	}
+	zero := map[string]constant.Value{}
+	if nt := c.P.NamedType(pkgRel, recv); nt != nil {
+		if st, ok := nt.Underlying().(*types.Struct); ok {
+			for i := 0; i < st.NumFields(); i++ {
+				if b, ok := st.Field(i).Type().Underlying().(*types.Basic); ok {
+					switch {
+					case b.Info()&types.IsBoolean != 0:
+						zero[st.Field(i).Name()] = constant.MakeBool(false)
+					case b.Info()&types.IsInteger != 0:
+						zero[st.Field(i).Name()] = constant.MakeInt64(0)
+					}
+				}
+			}
+		}
+	}
+	im := &implModel{m: m, lt: lt, eof: eof, obs: map[string]bool{}, zero: zero, flags: map[string]constant.Value{}}
+	out := map[string]string{}
+	for name := range lt.byName {
+		cfg := implCfg{stack: []string{name}, fields: map[string]string{}}
+		n, act := 0, ""
+		for _, r := range eof {
+			match := true
+			for _, a := range r.atoms {
+				v := absint.EvalWith(a.Cond, im.leaf(&cfg, true))
+				if v == nil || v.Kind() != constant.Bool || constant.BoolVal(v) != a.Truth {
+					match = false
+					break
+				}
+			}
+			if match {
+				n++
+				act = r.action
+			}
+		}
+		if n == 1 {
+			out[name] = act
+		}
+	}
+	return out, lt, len(out) > 0
 }
 
 // c17rulename: the rule name is recorded whenever a rule value is about to be read.
